@@ -1082,6 +1082,10 @@ func vsGen(r *vu.Rng, size int) *vsCluster {
 			if gw.NS != rt.NS || r.Chance(1, 3) {
 				p.NS = vsPtr(gw.NS)
 			}
+			if gw.NS != rt.NS && r.Chance(1, 4) {
+				// left out: the parentRef then means a Gateway of that name in the Route's own namespace, not this one
+				p.NS = nil
+			}
 			if r.Chance(1, 10) {
 				p.NS = vsPtr(vsPick(r, vsNSPool)) // may point to a non-existing gateway
 			}
@@ -1518,7 +1522,9 @@ func vsCohere(r *vu.Rng, c *vsCluster) {
 			if gw == nil {
 				continue
 			}
-			if gw.NS != rt.NS || p.NS != nil {
+			// (a parentRef of a Route in another namespace that leaves the namespace out mostly stays as it is: it does not mean
+			// this Gateway)
+			if p.NS != nil || (gw.NS != rt.NS && !r.Chance(2, 3)) {
 				p.NS = vsPtr(gw.NS)
 			}
 			if p.Section != nil {
